@@ -1,8 +1,177 @@
-(* C18 -- placeholder while the pipeline is brought up; replaced below. *)
-From Coq Require Import List ZArith Bool.
-From FJ Require Import Model.Num Model.Leaves Model.Expr Proofs.ExprP.
+(* C18 -- Finite log-probabilities have finite gradients; log_prob is never NaN.
+   Only the property theorems (each closed by [exact]) and their [Print Assumptions].
+   Model: Model/Expr.v (expression language, eval, reverse-mode vjp from JAX's adjoint rules, terms of the formulas
+   as coded).  Lemmas: Proofs/ExprP.v (eval = the shallow models of Model/Leaves.v), Proofs/SafeP.v.
+   Exact over R: option R makes inf/NaN explicit (None, absorbing; 0 * None = None), float overflow is not modelled. *)
+From Coq Require Import Reals List ZArith Bool.
+From FJ Require Import Model.Num Proofs.RNum Model.Leaves Model.Expr Proofs.ExprP Proofs.SafeP.
 Import ListNotations.
-Theorem C18_eval_leaky_inv : forall A (O : NumOps A) m g ic y,
-  eval O (en1 [y; m; g; ic]) (leaky_inv_t (Var 1) (Var 2) (Var 3) (Var 0)) = leaky_inv O m g ic y.
-Proof. exact @ev_leaky_inv. Qed.
-Print Assumptions C18_eval_leaky_inv.
+Open Scope R_scope.
+
+(* ---------- the deep embedding IS the shallow model the other properties use (every NumOps, all arguments) ---------- *)
+Theorem C18_eval_matches_leaves_leaky : forall A (O : NumOps A) m g ic y,
+  eval O (en1 [y; m; g; ic]) (leaky_inv_t (Var 1) (Var 2) (Var 3) (Var 0)) = leaky_inv O m g ic y /\
+  eval O (en1 [y; m; g; ic]) (leaky_fwd_t (Var 1) (Var 2) (Var 3) (Var 0)) = leaky_fwd O m g ic y /\
+  eval O (en1 [y; m; g; ic]) (leaky_ld_fwd_t (Var 1) (Var 2) (Var 0)) = leaky_ld_fwd O m g y /\
+  eval O (en1 [y; m; g; ic]) (leaky_ld_inv_t (Var 1) (Var 2) (Var 3) (Var 0)) = leaky_ld_inv O m g ic y.
+Proof. exact @ev_leaky_all. Qed.
+Print Assumptions C18_eval_matches_leaves_leaky.
+
+Theorem C18_eval_matches_leaves_rqs : forall A (O : NumOps A) xp yp dv lo hi x,
+  eval O (enr [x; lo; hi] xp yp dv) (rqs_fwd_t 3 (Var 1) (Var 2) (Var 0)) = rqs_fwd O xp yp dv lo hi x /\
+  eval O (enr [x; lo; hi] xp yp dv) (rqs_inv_t 3 (Var 1) (Var 2) (Var 0)) = rqs_inv O xp yp dv lo hi x /\
+  eval O (enr [x; lo; hi] xp yp dv) (rqs_deriv_t 3 (Var 1) (Var 2) (Var 0)) = rqs_deriv O xp yp dv lo hi x /\
+  eval O (enr [x; lo; hi] xp yp dv) (rqs_ld_fwd_t 3 (Var 1) (Var 2) (Var 0)) = rqs_ld_fwd O xp yp dv lo hi x /\
+  eval O (enr [x; lo; hi] xp yp dv) (rqs_ld_inv_t 3 (Var 1) (Var 2) (Var 0)) = rqs_ld_inv O xp yp dv lo hi x /\
+  eval O (enr [x; lo; hi] xp yp dv) (rqs_fwd_old_t 3 (Var 1) (Var 2) (Var 0)) = rqs_fwd_old O xp yp dv lo hi x /\
+  eval O (enr [x; lo; hi] xp yp dv) (rqs_inv_old_t 3 (Var 1) (Var 2) (Var 0)) = rqs_inv_old O xp yp dv lo hi x.
+Proof. exact @ev_rqs_all. Qed.
+Print Assumptions C18_eval_matches_leaves_rqs.
+
+Theorem C18_eval_matches_leaves_other : forall A (O : NumOps A) loc scale x,
+  eval O (en1 [x]) (tanh_log_grad_t (Var 0)) = tanh_log_grad O x /\
+  eval O (en1 [x]) (softplus_inv_t (Var 0)) = softplus_inv O x /\
+  eval O (en1 [x]) (softplus_ld_inv_t (Var 0)) = softplus_ld_inv O x /\
+  eval O (en1 [x]) (softplus_ld_fwd_t (Var 0)) = softplus_ld_fwd O x /\
+  eval O (en1 [x]) (exp_inv_t (Var 0)) = exp_inv O x /\
+  eval O (en1 [x]) (exp_ld_inv_t (Var 0)) = exp_ld_inv O x /\
+  eval O (en1 [x]) (tanh_inv_t (Var 0)) = tanh_inv O x /\
+  eval O (en1 [x]) (tanh_ld_inv_t (Var 0)) = tanh_ld_inv O x /\
+  eval O (en1 [x; loc; scale]) (affine_fwd_t (Var 1) (Var 2) (Var 0)) = affine_fwd O loc scale x /\
+  eval O (en1 [x; loc; scale]) (affine_inv_t (Var 1) (Var 2) (Var 0)) = affine_inv O loc scale x /\
+  eval O (en1 [x; loc; scale]) (affine_ld_t (Var 2)) = affine_ld O scale.
+Proof. exact @ev_other_all. Qed.
+Print Assumptions C18_eval_matches_leaves_other.
+
+(* ---------- the meta-theorem: Safe => the value and EVERY adjoint (input, scalar field, array entry) are finite ---------- *)
+Theorem C18_safe_finite : forall (en : env R) (e : expr), Safe en e ->
+  eval OROps (lift en) e = Some (eval ROps en e) /\
+  forall g t, vjp OROps (lift en) e (Some g) t = Some (vjp ROps en e g t).
+Proof. exact safe_finite. Qed.
+Print Assumptions C18_safe_finite.
+
+(* the extracted boolean decides Safe at the reals *)
+Theorem C18_safeb_decides_Safe : forall (en : env R) (e : expr), safeb ROps en e = true <-> Safe en e.
+Proof. exact safeb_Safe. Qed.
+Print Assumptions C18_safeb_decides_Safe.
+
+(* the jnp.where pitfall: where(x <= 0, 1, log x) at x = 0 has a finite value and a poisoned gradient; it is not Safe *)
+Theorem C18_where_pitfall_refuted :
+  eval OROps (lift (en_of [0])) pit = Some 1 /\ vjp OROps (lift (en_of [0])) pit (Some 1) (TVar 0) = None /\ ~ Safe (en_of [0]) pit.
+Proof. exact (conj pit_value (conj pit_grad_poisoned pit_not_safe)). Qed.
+Print Assumptions C18_where_pitfall_refuted.
+
+(* ---------- Safe of every formula as coded, at ALL real inputs and ALL valid parameters ---------- *)
+Theorem C18_leaky_inv_safe : forall m g ic y, g <> 0 ->
+  Safe (en_of [y; m; g; ic]) (leaky_inv_t (Var 1) (Var 2) (Var 3) (Var 0)).
+Proof. exact leaky_inv_safe_all. Qed.
+Print Assumptions C18_leaky_inv_safe.
+
+Theorem C18_leaky_fwd_safe : forall m g ic x, Safe (en_of [x; m; g; ic]) (leaky_fwd_t (Var 1) (Var 2) (Var 3) (Var 0)).
+Proof. exact leaky_fwd_safe_all. Qed.
+Print Assumptions C18_leaky_fwd_safe.
+
+Theorem C18_leaky_ld_fwd_safe : forall m g ic x, 0 < g -> Safe (en_of [x; m; g; ic]) (leaky_ld_fwd_t (Var 1) (Var 2) (Var 0)).
+Proof. exact leaky_ld_fwd_safe_all. Qed.
+Print Assumptions C18_leaky_ld_fwd_safe.
+
+Theorem C18_leaky_ld_inv_safe : forall m g ic y, 0 < g ->
+  Safe (en_of [y; m; g; ic]) (leaky_ld_inv_t (Var 1) (Var 2) (Var 3) (Var 0)).
+Proof. exact leaky_ld_inv_safe_all. Qed.
+Print Assumptions C18_leaky_ld_inv_safe.
+
+Theorem C18_softplus_inv_safe : forall y, 0 < y -> Safe (en_of [y]) (softplus_inv_t (Var 0)).
+Proof. exact softplus_inv_safe_pos. Qed.
+Print Assumptions C18_softplus_inv_safe.
+
+Theorem C18_exp_inv_safe : forall y, 0 < y -> Safe (en_of [y]) (exp_inv_t (Var 0)).
+Proof. exact exp_inv_safe_pos. Qed.
+Print Assumptions C18_exp_inv_safe.
+
+Theorem C18_affine_safe : forall loc scale y, scale <> 0 ->
+  Safe (en_of [y; loc; scale]) (affine_inv_t (Var 1) (Var 2) (Var 0)) /\ Safe (en_of [y; loc; scale]) (affine_ld_t (Var 2)).
+Proof. exact affine_inv_safe_all. Qed.
+Print Assumptions C18_affine_safe.
+
+Theorem C18_tanh_log_grad_safe : forall x, Safe (en_of [x]) (tanh_log_grad_t (Var 0)).
+Proof. exact tanh_log_grad_safe_all. Qed.
+Print Assumptions C18_tanh_log_grad_safe.
+
+(* the spline: knots strictly increasing from lo to hi in both arrays, positive derivatives, lo <= 0 <= hi *)
+Theorem C18_rqs_fwd_safe : forall xp yp dv lo hi x, rqs_valid xp yp dv lo hi ->
+  Safe (en3 x lo hi xp yp dv) (rqs_fwd_t 3 (Var 1) (Var 2) (Var 0)).
+Proof. exact rqs_fwd_safe_all. Qed.
+Print Assumptions C18_rqs_fwd_safe.
+
+Theorem C18_rqs_deriv_safe : forall xp yp dv lo hi x, rqs_valid xp yp dv lo hi ->
+  Safe (en3 x lo hi xp yp dv) (rqs_deriv_t 3 (Var 1) (Var 2) (Var 0)) /\
+  0 < eval ROps (en3 x lo hi xp yp dv) (rqs_deriv_t 3 (Var 1) (Var 2) (Var 0)).
+Proof. exact rqs_deriv_safe_all. Qed.
+Print Assumptions C18_rqs_deriv_safe.
+
+(* full strength (not _partial): the strict positivity of the discriminant is proved, not assumed *)
+Theorem C18_rqs_inv_safe : forall xp yp dv lo hi y, rqs_valid xp yp dv lo hi ->
+  Safe (en3 y lo hi xp yp dv) (rqs_inv_t 3 (Var 1) (Var 2) (Var 0)).
+Proof. exact rqs_inv_safe_all. Qed.
+Print Assumptions C18_rqs_inv_safe.
+
+Theorem C18_rqs_ld_inv_safe : forall xp yp dv lo hi y, rqs_valid xp yp dv lo hi ->
+  Safe (en3 y lo hi xp yp dv) (rqs_ld_inv_t 3 (Var 1) (Var 2) (Var 0)).
+Proof. exact rqs_ld_inv_safe_all. Qed.
+Print Assumptions C18_rqs_ld_inv_safe.
+
+(* ---------- the property on the model: log_prob of Transformed(base, leaf | Invert(leaf)) ---------- *)
+(* every leaf, both orientations, StandardNormal or Normal(loc, scale) base: value finite, gradient w.r.t. the input,
+   every scalar field and every array entry finite *)
+Theorem C18_log_prob_finite : forall (en : env R) l inverted normal,
+  length (vars en) = nV -> leaf_ok l inverted en -> (normal = true -> nth 9 (vars en) 0 <> 0) ->
+  (exists v, eval OROps (lift en) (lp_t l inverted normal) = Some v) /\
+  (forall t, exists r, vjp OROps (lift en) (lp_t l inverted normal) (Some 1) t = Some r).
+Proof. exact lp_finite. Qed.
+Print Assumptions C18_log_prob_finite.
+
+Theorem C18_leaky_log_prob_finite : forall inverted normal x m bloc bscale, (normal = true -> bscale <> 0) ->
+  let en := en10 x m (leaky_grad ROps m) (leaky_icpt ROps m) 0 0 0 1 bloc bscale [] [] [] in
+  (exists v, eval OROps (lift en) (lp_t LLeaky inverted normal) = Some v) /\
+  (forall t, exists r, vjp OROps (lift en) (lp_t LLeaky inverted normal) (Some 1) t = Some r).
+Proof. exact leaky_log_prob_finite. Qed.
+Print Assumptions C18_leaky_log_prob_finite.
+
+Theorem C18_rqs_log_prob_finite : forall inverted normal x lo hi bloc bscale xp yp dv,
+  rqs_valid xp yp dv lo hi -> (normal = true -> bscale <> 0) ->
+  let en := en10 x 0 1 0 lo hi 0 1 bloc bscale xp yp dv in
+  (exists v, eval OROps (lift en) (lp_t LRqs inverted normal) = Some v) /\
+  (forall t, exists r, vjp OROps (lift en) (lp_t LRqs inverted normal) (Some 1) t = Some r).
+Proof. exact rqs_log_prob_finite. Qed.
+Print Assumptions C18_rqs_log_prob_finite.
+
+(* ---------- the formulas before the repairs are refuted ---------- *)
+(* D2: LeakyTanh.inverse without y_robust at y = 1: not Safe, finite value, gradient None *)
+Theorem C18_leaky_inv_old_unsafe_refuted :
+  exists (en : env R), let t := leaky_inv_old_t (Var 1) (Var 2) (Var 3) (Var 0) in
+    nth 0 (vars en) 0 = 1 /\ ~ Safe en t /\ (exists v, eval OROps (lift en) t = Some v) /\
+    vjp OROps (lift en) t (Some 1) (TVar 0) = None.
+Proof. exact leaky_inv_old_unsafe_refuted. Qed.
+Print Assumptions C18_leaky_inv_old_unsafe_refuted.
+
+(* D1: the unclipped bin index at the initial parameters, y = interval[0]: the denominator -b - sqrt(b^2-4ac) is 0 *)
+Theorem C18_rqs_inv_old_unsafe_at_lo_refuted : ~ Safe en_init_lo (rqs_inv_old_t 3 (Var 1) (Var 2) (Var 0)).
+Proof. exact rqs_inv_old_unsafe_at_lo_refuted. Qed.
+Print Assumptions C18_rqs_inv_old_unsafe_at_lo_refuted.
+
+(* ---------- log_prob's post-processing ---------- *)
+Theorem C18_lp_never_nan : forall p_z ld v, In v (log_prob_classes p_z ld) -> v <> NaN.
+Proof. exact lp_never_nan. Qed.
+Print Assumptions C18_lp_never_nan.
+
+(* ---------- non-vacuity ---------- *)
+Example C18_example_valid_spline : rqs_valid [-2; -1; 1; 2] [-2; -1; 1; 2] [1; 1; 1; 1] (-2) 2.
+Proof. exact rqs_valid_init. Qed.
+(* the D1 witness point under the repaired formula: the inverse at y = interval[0] = -2 is Safe *)
+Example C18_example_repaired_at_lo : Safe (en3 (-2) (-2) 2 [-2; -1; 1; 2] [-2; -1; 1; 2] [1; 1; 1; 1]) (rqs_inv_t 3 (Var 1) (Var 2) (Var 0)).
+Proof. apply rqs_inv_safe_all. exact rqs_valid_init. Qed.
+(* the D2 witness point under the repaired formula *)
+Example C18_example_repaired_at_1 : Safe (en_of [1; 3; leaky_grad ROps 3; leaky_icpt ROps 3]) (leaky_inv_t (Var 1) (Var 2) (Var 3) (Var 0)).
+Proof. apply leaky_inv_safe_all. apply Rgt_not_eq, leaky_grad_pos. Qed.
+Example C18_example_classes : log_prob_classes Fin PInf = [PInf] /\ log_prob_classes PInf NInf = [NInf] /\ log_prob_classes Fin Fin = [Fin; PInf; NInf].
+Proof. repeat split; reflexivity. Qed.
